@@ -14,7 +14,9 @@ for sid in $ids; do
   nv=$(echo "$out" | grep -c '^VIOLATION')
   nr=$(echo "$out" | grep '^VIOLATION' | grep -vc 'no-failing-input-found')
   echo "$sid property=$prop exit=$rc violations=$nv with-replayed-input=$nr"
-  [ $rc -eq 1 ] || miss=$((miss+1))
+  if [ $rc -ne 1 ]; then
+    if grep -q '"detection_note"' /verif/seeded/$sid/meta.json; then echo "   (expected miss: outside reach, see detection_note in meta.json)"; else miss=$((miss+1)); fi
+  fi
   python3 - "$sid" "$prop" "$rc" "$out" <<'PY'
 import json,sys
 sid,prop,rc,out=sys.argv[1:5]
